@@ -250,8 +250,10 @@ def run(ctx: Ctx) -> None:
         for rel, ad, bd in placements:
             others = [p for p in placements if p[2] != bd]
             bds = [bd, rng.choice(others)[2]] + ([rng.choice(others)[2]] if rng.random() < 0.3 else [])
+            if rng.random() < 0.3:
+                bds = [["w", "runs", "Case A"], ["w", "runs", "case A"]]        # differ only in letter case (a case-sensitive file system)
             cases.append({"kind": "place2", "rel": rel, "a_dir": ad, "b_dirs": bds, "a_name": rng.choice(["a", "mainDict", "my a"]),
-                          "b_names": [f"b{j}" + rng.choice(["", ".dict"]) for j in range(len(bds))], "reset": rng.random() < 0.7,
+                          "b_names": ([f"b{j}" + rng.choice(["", ".dict"]) for j in range(len(bds))] if bds[0][-1].lower() != bds[-1][-1].lower() or len(bds) != 2 else ["paramDict", "paramDict"]), "reset": rng.random() < 0.7,
                           "start": rng.choice([-1, -1, 0, 5])})
     process(ctx, cases)
 
